@@ -3,17 +3,24 @@
 // (verifkit/vsync, verifkit/vatomic). The rewrite is mechanical (import paths only) and is
 // redone from the current working tree on every check run.
 //
-//	instrument -out <dir> -overlay <out.json> [-merge <base-overlay.json>] <tree>...
+// With -chan <substr,substr,...> files whose path contains one of the substrings also get a
+// scheduling point (verifkit/vsync.ChanPoint) in front of every statement that sends on,
+// receives from or selects over a channel, so that pipeline stages connected by channels
+// are interleaved by the explorer as well.
+//
+//	instrument -out <dir> -overlay <out.json> [-merge <base-overlay.json>] [-chan a,b] <tree>...
 package main
 
 import (
 	"encoding/json"
 	"flag"
 	"fmt"
+	"go/ast"
 	"go/parser"
 	"go/token"
 	"os"
 	"path/filepath"
+	"sort"
 	"strings"
 )
 
@@ -21,7 +28,14 @@ func main() {
 	out := flag.String("out", "", "directory for generated files")
 	ov := flag.String("overlay", "", "overlay json to write")
 	merge := flag.String("merge", "", "base overlay json to merge in")
+	chanSel := flag.String("chan", "", "comma separated path substrings: files to receive channel scheduling points")
 	flag.Parse()
+	var chanSubs []string
+	for _, c := range strings.Split(*chanSel, ",") {
+		if c != "" {
+			chanSubs = append(chanSubs, c)
+		}
+	}
 	rep := map[string]string{}
 	if *merge != "" {
 		b, err := os.ReadFile(*merge)
@@ -59,11 +73,21 @@ func main() {
 			if err != nil {
 				return err
 			}
-			if !strings.Contains(string(src), `"sync`) {
+			wantChan := false
+			for _, c := range chanSubs {
+				if strings.Contains(p, c) && (strings.Contains(string(src), "<-") || strings.Contains(string(src), "select")) {
+					wantChan = true
+				}
+			}
+			if !strings.Contains(string(src), `"sync`) && !wantChan {
 				return nil
 			}
 			fset := token.NewFileSet()
-			f, err := parser.ParseFile(fset, p, src, parser.ImportsOnly)
+			mode := parser.ImportsOnly
+			if wantChan {
+				mode = parser.SkipObjectResolution
+			}
+			f, err := parser.ParseFile(fset, p, src, mode)
 			if err != nil {
 				return nil // not our problem: the compiler will say
 			}
@@ -72,6 +96,18 @@ func main() {
 				text     string
 			}
 			var edits []edit
+			if wantChan {
+				n := 0
+				for _, pos := range chanStmtPositions(f) {
+					o := fset.Position(pos).Offset
+					edits = append(edits, edit{o, o, "verifpt.ChanPoint(); "})
+					n++
+				}
+				if n > 0 {
+					o := fset.Position(f.Name.End()).Offset
+					edits = append(edits, edit{o, o, "; import verifpt \"verifkit/vsync\""})
+				}
+			}
 			for _, im := range f.Imports {
 				var to, alias string
 				switch im.Path.Value {
@@ -91,6 +127,7 @@ func main() {
 			if len(edits) == 0 {
 				return nil
 			}
+			sort.SliceStable(edits, func(i, j int) bool { return edits[i].off < edits[j].off })
 			res := string(src)
 			for i := len(edits) - 1; i >= 0; i-- {
 				e := edits[i]
@@ -114,6 +151,82 @@ func main() {
 		fail(err)
 	}
 	fmt.Fprintf(os.Stderr, "instrument: %d files rewritten\n", n)
+}
+
+// chanStmtPositions returns the start of every statement that sits directly in a statement
+// list and sends, receives or selects (function literals inside it are not searched: their
+// own statement lists are visited separately).
+func chanStmtPositions(f *ast.File) []token.Pos {
+	var out []token.Pos
+	hasChanOp := func(s ast.Stmt) bool {
+		found := false
+		ast.Inspect(s, func(n ast.Node) bool {
+			if found {
+				return false
+			}
+			switch x := n.(type) {
+			case *ast.FuncLit:
+				return false
+			case *ast.BlockStmt:
+				if n != ast.Node(s) {
+					return false // nested statement lists are visited on their own
+				}
+			case *ast.SendStmt:
+				found = true
+			case *ast.SelectStmt:
+				found = true
+				return false
+			case *ast.UnaryExpr:
+				if x.Op == token.ARROW {
+					found = true
+				}
+			}
+			return true
+		})
+		return found
+	}
+	visit := func(list []ast.Stmt) {
+		for _, s := range list {
+			switch x := s.(type) {
+			case *ast.SendStmt, *ast.SelectStmt:
+				out = append(out, s.Pos())
+			case *ast.ExprStmt, *ast.AssignStmt, *ast.ReturnStmt, *ast.DeclStmt, *ast.IncDecStmt:
+				if hasChanOp(s) {
+					out = append(out, s.Pos())
+				}
+			case *ast.LabeledStmt:
+				if _, ok := x.Stmt.(*ast.SelectStmt); ok {
+					out = append(out, s.Pos())
+				}
+			case *ast.RangeStmt:
+				// the confluence idiom: for v := range x.Outlet() { ... } - a point before the
+				// loop and at the start of every iteration
+				if c, ok := x.X.(*ast.CallExpr); ok {
+					if sel, ok := c.Fun.(*ast.SelectorExpr); ok && sel.Sel.Name == "Outlet" && x.Body != nil {
+						out = append(out, s.Pos(), x.Body.Lbrace+1)
+					}
+				}
+			case *ast.IfStmt:
+				// a receive in the init or condition of an if
+				probe := &ast.IfStmt{Init: x.Init, Cond: x.Cond, Body: &ast.BlockStmt{}}
+				if hasChanOp(probe) {
+					out = append(out, s.Pos())
+				}
+			}
+		}
+	}
+	ast.Inspect(f, func(n ast.Node) bool {
+		switch x := n.(type) {
+		case *ast.BlockStmt:
+			visit(x.List)
+		case *ast.CaseClause:
+			visit(x.Body)
+		case *ast.CommClause:
+			visit(x.Body)
+		}
+		return true
+	})
+	return out
 }
 
 func fail(err error) {
